@@ -1,6 +1,8 @@
 import PkLA.Lmi
 import PkLA.DmdcLmi
 import Pk.Parse
+import Pk.Gram
+import PkLA.HinfFreq
 /-! Line-protocol driver for the Mathlib `Matrix` models of the LMI blocks, evaluated over ℚ.
 Run with `lake env lean --run DriverLA.lean` (an executable importing Mathlib cannot be linked here).
 The definitions evaluated are the ones the theorems are about (`PkLA.specLmiA`, `brlLMI`, `dissLMI`, …). -/
@@ -25,6 +27,44 @@ def pM (r c : Nat) : P (Matrix (Fin r) (Fin c) ℚ) := do
   let rows ← pMany r' (pMany c' pRat)
   if r' != r || c' != c then throw s!"matrix {r'}x{c'} where {r}x{c} expected"
   pure (ofRows r c rows)
+
+
+def toRows {r c : Nat} (M : Matrix (Fin r) (Fin c) ℚ) : List (List ℚ) :=
+  (List.finRange r).map fun i => (List.finRange c).map fun j => M i j
+
+def vecOf (n : Nat) (l : List ℚ) : Fin n → ℚ := fun i => l.getD i.val 0
+
+def showVec {n : Nat} (v : Fin n → ℚ) : String := " ".intercalate ((List.finRange n).map fun i => showRat (v i))
+
+/-- frequency response at the point `z = c + i s`: solve the real form of `z x = A x + B u` exactly over ℚ (Gauss–Jordan),
+CHECK the two equations `PkLA.brl_freq_real` has as hypotheses on the solution found (so the theorem applies to what is
+printed without trusting the elimination), and return `y = C x + D u` as real and imaginary parts -/
+def freqResp (n m k : Nat) (c s : ℚ) (A : Matrix (Fin n) (Fin n) ℚ) (B : Matrix (Fin n) (Fin m) ℚ)
+    (C : Matrix (Fin k) (Fin n) ℚ) (D : Matrix (Fin k) (Fin m) ℚ) (ur ui : Fin m → ℚ) : Option String :=
+  let cIA : Matrix (Fin n) (Fin n) ℚ := c • (1 : Matrix (Fin n) (Fin n) ℚ) - A
+  let sI : Matrix (Fin n) (Fin n) ℚ := s • (1 : Matrix (Fin n) (Fin n) ℚ)
+  let M := toRows (Matrix.of fun (i : Fin (n + n)) (j : Fin (n + n)) =>
+    if hi : i.val < n then
+      (if hj : j.val < n then cIA ⟨i.val, hi⟩ ⟨j.val, hj⟩ else -(sI ⟨i.val, hi⟩ ⟨j.val - n, by omega⟩))
+    else
+      (if hj : j.val < n then sI ⟨i.val - n, by omega⟩ ⟨j.val, hj⟩ else cIA ⟨i.val - n, by omega⟩ ⟨j.val - n, by omega⟩))
+  let br := B *ᵥ ur
+  let bi := B *ᵥ ui
+  let rhs : List (List ℚ) := ((List.finRange n).map fun i => [br i]) ++ ((List.finRange n).map fun i => [bi i])
+  match Pk.Gram.solve M rhs with
+  | none => none
+  | some X =>
+    let flat := X.map fun row => row.getD 0 0
+    let xr := vecOf n (flat.take n)
+    let xi := vecOf n (flat.drop n)
+    -- certificate: the hypotheses `hr`, `hi` of `brl_freq_real`
+    let l1 := (List.finRange n).map (A *ᵥ xr + B *ᵥ ur)
+    let r1 := (List.finRange n).map (c • xr - s • xi)
+    let l2 := (List.finRange n).map (A *ᵥ xi + B *ᵥ ui)
+    let r2 := (List.finRange n).map (s • xr + c • xi)
+    if l1 == r1 && l2 == r2 then
+      some (s!"{k} " ++ showVec (C *ᵥ xr + D *ᵥ ur) ++ " " ++ showVec (C *ᵥ xi + D *ᵥ ui))
+    else none
 
 def dispatchLA : P String := do
   let cmd ← tok
@@ -85,6 +125,13 @@ def dispatchLA : P String := do
     let Zt ← pM q rt; let Zh ← pM q rh
     let Qb := dmdcQbar Qh (fromRows Qt1 Qt2)
     pure ("ok " ++ dump (dmdcLmi W (Sh * Sh) (fromCols Uh1 Uh2) (dmdcCross Qb St Zt Zh Sh) (Qb * Str)))
+  | "freq" => do
+    let n ← pNat; let m ← pNat; let k ← pNat; let c ← pRat; let s ← pRat
+    let A ← pM n n; let B ← pM n m; let C ← pM k n; let D ← pM k m
+    let ur ← pMany m pRat; let ui ← pMany m pRat
+    match freqResp n m k c s A B C D (vecOf m ur) (vecOf m ui) with
+    | some out => pure ("ok " ++ out)
+    | none => pure "singular"
   | _ => throw s!"bad command {cmd}"
 
 def handleLA (line : String) : String :=
